@@ -335,7 +335,13 @@ pub fn drive(d: &mut DecDrv, data: &[u8], chunk: usize, budget: usize, on_step: 
 /// Decode with the input revealed at the given cut points (ascending byte offsets), unlimited
 /// budget; after each reveal the decoder is called until it asks for input again.
 pub fn run_cuts(data: &[u8], mode: Mode, buf_len: usize, base_flags: u32, cuts: &[usize], more_forever: bool, fill: u8) -> DecResult {
+    run_cuts_with(data, mode, buf_len, base_flags, cuts, more_forever, fill, |_| {})
+}
+
+/// `run_cuts` on a decoder object that `prep` may have used before (and re-initialised).
+pub fn run_cuts_with(data: &[u8], mode: Mode, buf_len: usize, base_flags: u32, cuts: &[usize], more_forever: bool, fill: u8, prep: impl FnOnce(&mut DecompressorOxide)) -> DecResult {
     let mut d = DecDrv::new(mode, buf_len, base_flags, fill);
+    prep(&mut d.r);
     d.more_forever = more_forever;
     let mut points: Vec<usize> = cuts.iter().cloned().filter(|&c| c < data.len()).collect();
     points.push(data.len());
